@@ -47,6 +47,15 @@ def failing_bodies():
     B.append(("throw-in-finally", "try { throw \"a\" } finally { throw \"b\" }"))
     B.append(("panic-in-finally", "global gopanic\ntry { return 1 } finally { gopanic() }"))
     B.append(("panic-in-catch", "global gopanic\ntry { throw 1 } catch e { gopanic() } finally { q := 2 }"))
+    # Go panics raised while a script function runs on a child VM (the host calls it back through an Invoker):
+    # its own handlers take them, exactly as in a direct call
+    for via in ("callfn", "callfnp"):
+        for k, (fail, what) in enumerate([("gopanic()", "panic"), ("goindex()", "index"), ("[1][c]", "error"), ("deep(0)", "overflow")]):
+            # (a value-stack overflow may be returned from Run instead of being delivered: no exact value is expected for it)
+            B.append((("childovf-%s-%s" if what == "overflow" else "child-%s-%s") % (via, what),
+                      "global (gopanic, gopanicnil, goindex, goerr, callfn, callfnp)\nhits := 0\nfin := 0\nvar deep\ndeep = func(n) { return [n, deep(n + 1)] }\n"
+                      "f := func(c) { try { %s } catch { hits++ } finally { fin++ }; return c }\n"
+                      "a := %s(f, 7)\nb := f(8)\ng := func(c) { return %s(f, c) + 1 }\nd := %s(g, 1)\nreturn [a, b, d, hits, fin]" % (fail, via, via, via)))
     B.append(("callback-panic-in-loop-try", "global gopanic\nout := []\nfor i := 0; i < 3; i++ { try { gopanic() } catch e { out = append(out, i) } }\nreturn out"))
     return B
 
@@ -55,14 +64,36 @@ def run(rep, br, proofs, rng, tier):
     for name, body in failing_bodies():
         hows = range(5) if (tier == "thorough" or len(body) < 3000) else [0, 1]
         for how in hows:
-            src = wrap(body.replace("global (gopanic, gopanicnil, goindex, goerr)\n", ""), how)
-            if "gopanic" in src or "goindex" in src or "goerr" in src:  # (gopanicnil contains gopanic)
-                src = "global (gopanic, gopanicnil, goindex, goerr)\n" + src.replace("global gopanic\n", "")
+            # global declarations go to the top of the script, the rest of the body is wrapped
+            import re as _re
+            blines = body.split("\n")
+            gnames = []
+            for l in blines:
+                if l.startswith("global "):
+                    for nm in _re.findall(r"[A-Za-z_][A-Za-z0-9_]*", l[7:]):
+                        if nm not in gnames: gnames.append(nm)
+            src = wrap("\n".join(l for l in blines if not l.startswith("global ")), how)
+            if gnames: src = "global (%s)\n" % ", ".join(gnames) + src
             for args in ([], [["i", "1"], ["s", hexs(b"x")], ["a", ["n"]]]):
                 c = mk_case("f.%s.%d.%d" % (name.replace(" ", "_").replace("(", "").replace(")", "")[:40], how, len(args)), "history", "1",
                             ["hist", [hexs(src.encode()), "0", "0"]], hexs(FOLLOW.encode()), ["args"] + args)
                 c["src"], c["name"] = src if len(src) < 3000 else name, name
                 cases.append(c)
+    # arguments of every type, host-side objects in unusual states included, through every way a script uses a value
+    ARGPOOL = [["n"], ["b", "1"], ["i", "0"], ["i", str(-2**63)], ["u", str(2**64 - 1)], ["f", "7ff8000000000001"], ["c", "-1"], ["s", hexs(b"")], ["s", hexs(b"\xff")],
+               ["y", hexs(b"")], ["a"], ["a", ["a"], ["n"]], ["m"], ["m", [hexs(b"k"), ["i", "1"]]], ["sm"], ["sm0"], ["e", "1", hexs(b"E"), hexs(b"m")],
+               ["re", "1", "1", hexs(b"E"), hexs(b"m")], ["rt0"], ["fn", hexs(b"f1")], ["fn0"], ["bfn"], ["optr0"], ["optr"],
+               ["a", ["optr0"], ["rt0"], ["fn0"], ["sm0"]], ["m", [hexs(b"p"), ["optr0"]], [hexs(b"q"), ["rt0"]]]]
+    USES = ["return a", "return [a, b]", "return a[0]", "return a[0][0]", "return a.p", "return a.q.x", "return a()", "return a(1, 2)", "return a + 1", "return 1 + a", "return -a", "return !a",
+            "return string(a)", "return len(a)", "return typeName(a)", "return copy(a)", "return a == a", "return a ? 1 : 2", "for k, v in a { return [k, v] }\nreturn 0",
+            "return sprintf(\"%v %s %d\", a, a, a)", "a[0] = 1\nreturn a", "a.k = 1\nreturn a", "x := [a, a]\nreturn x[1]", "f := func(...p) { return p }\nreturn f(...a)",
+            "try { throw a } catch e { return e }", "return isError(a, a)", "return a.New(\"m\")", "return append(a, a)", "return contains(a, a)", "return int(a)", "return error(a)"]
+    for ai, av in enumerate(ARGPOOL):
+        for ui, use in enumerate(USES):
+            src = "param (a, ...b)\n" + use
+            c = mk_case("a.%d.%d" % (ai, ui), "history", "1", ["hist", [hexs(src.encode()), "0", "0", ["args", av, ["i", "5"]]]], hexs(FOLLOW.encode()), ["args"])
+            c["src"], c["name"] = src + "   // a = " + vlib.sexp_str(av), "arg"
+            cases.append(c)
     impl, culprits = vlib.run_impl_robust(cases, batch=40, timeout=120)
     fails, classes = [], {}
     for c, how in culprits:
@@ -86,6 +117,10 @@ def run(rep, br, proofs, rng, tier):
             want = {"3": "(a (b 1) (i 2) (b 1))", "4": "(a (b 1) (i 100) (b 1))"}.get(c["name"][-1], "(a (b 1) (i 1) (b 1))")
             if v != want:
                 fails.append((c, "recursion to the frame limit with a handler in every frame: expected exactly one handler to run, got [deep enough, catch blocks run, finally count consistent] = %s" % v)); continue
+        if c["name"].startswith("child-") and c["id"].split(".")[-2] == "0":
+            v = vlib.sexp_str(r[1]) if k == "ok" else vlib.sexp_str(r)
+            if v != "(a (i 7) (i 8) (i 2) (i 3) (i 3))":
+                fails.append((c, "a failure inside a script function which the host calls back through an Invoker must be taken by that function's own catch and finally, as in a direct call: expected [7, 8, 2, 3, 3], got %s" % v[:300])); continue
         if k not in ("ok", "err", "timeout"):
             fails.append((c, "unexpected outcome class " + k)); continue
         used, fresh = vlib.sexp_str(sx[2][1]), vlib.sexp_str(sx[4][1])
@@ -95,7 +130,7 @@ def run(rep, br, proofs, rng, tier):
         rep.violation({"property": "C06", "kind": "oracle", "why": why, "case": c["line"][:2000], "script": c["src"]})
     rep.coverage.update({
         "evaluations": len(cases), "distinct_nontrivial": sum(v for k, v in classes.items() if k == "err"),
-        "rule": "programs built to fail (zero division and remainder, negative shifts, bad indexes and slices, calls of non-callables, failing builtins, Go callbacks that panic or index out of range, recursion to depth 1000..1025 and unbounded, frames with 1..250 locals recursing to the value-stack limit with and without a callback panic at the edge, array literals and calls of 2030..5000 elements around the 2048-slot stack, variadic calls at depth, throws and panics inside catch and finally), each bare, inside try/catch, try/finally, try/catch/finally and inside a called function, with and without arguments, run with recovery enabled under recover(), followed by a known script on the same VM compared with a new VM; non-trivial = the run ended with a uGO error",
+        "rule": "programs built to fail (zero division and remainder, negative shifts, bad indexes and slices, calls of non-callables, failing builtins, Go callbacks that panic or index out of range, recursion to depth 1000..1025 and unbounded, frames with 1..250 locals recursing to the value-stack limit with and without a callback panic at the edge, array literals and calls of 2030..5000 elements around the 2048-slot stack, variadic calls at depth, throws and panics inside catch and finally, Go panics, errors and stack overflow inside a script function which the host calls back through a pooled or unpooled Invoker, also nested), each bare, inside try/catch, try/finally, try/catch/finally and inside a called function, with and without arguments; every use of a parameter (return, index, selector, call, operators, builtins, for-in, spread, throw, assignment through it) x arguments of every type incl. host-side objects in unusual states (ObjectPtr and SyncMap without a value, a Function without a Go function, an empty RuntimeError, containers of those); run with recovery enabled under recover(), followed by a known script on the same VM compared with a new VM; non-trivial = the run ended with a uGO error",
         "samples": [cases[0]["src"], cases[-1]["src"]],
         "outcome_classes": classes, "oracle_failures": len(fails)})
 
